@@ -1262,9 +1262,9 @@ func main() {
 	rng := wire.Rng(a.Seed)
 	w := wire.NewWriter("C17", a.Seed, a.Tier)
 	w.Rule = "data sets: fixed corpus, then random scenes of 1-3 parts (L loose nodes/ways/other relations, R route chains cut, reversed, shuffled, with gaps and missing nodes/ways, M multipolygon/boundary relations over rectangle rings cut into 1-3 ways with inner rings, broken rings, missing/annotated member ways, own tags or none); each data set converted under 16 option sets twice. distinct = distinct token streams; trivial = no feature in the baseline."
-	n := 60
+	n := 150
 	if a.Tier == "thorough" {
-		n = 1200
+		n = 1500
 	}
 	n = int(float64(n) * a.Scale)
 	all := make([]int, 16)
